@@ -40,13 +40,17 @@ def sl(tree, i):
     return jax.tree_util.tree_map(lambda x: x[i], tree)
 
 
-def run_case(ctx, rig, key_words, plans=None, actions=None, fail=None):
-    """key_words: list of B key pairs; plans: list of B plans (each N_STEPS long) or actions[t][i]."""
+def run_case(ctx, rig, key_words, plans=None, actions=None, fail=None, typed=False):
+    """key_words: list of B key pairs; plans: list of B plans (each N_STEPS long) or actions[t][i].
+    typed: the batch is made of new-style typed keys (jax.random.key) instead of raw uint32 pairs."""
+    import jax
     import jax.numpy as jnp
 
     b = rig.b
     B = len(key_words)
     keys = jnp.stack([envs.make_key(k) for k in key_words], 0)
+    if typed:
+        keys = jax.random.wrap_key_data(keys)
     # ---- 1. VmapWrapper vs unwrapped
     vs, vts = rig.j["V"][0](keys)
     hvs, hvts = episodes.host((vs, vts))
@@ -166,6 +170,13 @@ def work_items(tier, flt):
     if tier != "quick":
         stacks += [("Game2048", 4, True, "tag"), ("Maze", 3, False, "zeromid"), ("Connector", 3, True, "m2smin"),
                    ("Snake", 130, False, "tag")]
+    # batches of new-style typed keys
+    for env, B, flag in ([("Snake", 3, True), ("Game2048", 1, False)] if tier == "quick" else
+                         [("Snake", 3, True), ("Game2048", 1, False), ("Knapsack", 4, True), ("Maze", 2, False),
+                          ("Connector", 2, True), ("Tetris", 5, False)]):
+        if envs.select_envs([env], flt):
+            items.append({"env": env, "entry": SHORT_ENTRY[env], "flag": flag, "B": B, "typed": True,
+                          "n": max(2, int((4 if tier == "quick" else 15) * scale)), "cost": 2})
     for env, B, flag, kind in stacks:
         if envs.select_envs([env], flt):
             entry = "g6a3t50rw" if (env == "Connector" and kind == "m2smin") else SHORT_ENTRY[env]
@@ -185,14 +196,14 @@ def run_item(item, seed, tier):
 
         def one(case_in):
             case = {"env": env, "entry": entry, "flag": flag, "keys": [list(k) for k in case_in["keys"]], "actions": [],
-                    "stack": item.get("stack", False)}
+                    "stack": item.get("stack", False), "typed": bool(item.get("typed"))}
 
             def fail(oracle, sig, msg):
                 ctx.fail(oracle, env, sig, f"{msg} [entry={entry} flag={flag} B={B} keys={case['keys']}]", case,
                          size=B * N_STEPS)
 
             with ctx.guard(env, case, size=10**6):
-                played = run_case(ctx, rig, case["keys"], plans=case_in["plans"], fail=fail)
+                played = run_case(ctx, rig, case["keys"], plans=case_in["plans"], fail=fail, typed=case["typed"])
                 case["actions"] = [a.tolist() for a in played]
                 ctx.count(f"batches_B{B}")
                 if len(ctx.samples) < 2:
@@ -217,5 +228,5 @@ def replay(case):
         def fail(oracle, sig, msg):
             ctx.fail(oracle, env, sig, msg, case)
 
-        run_case(ctx, rig, case["keys"], actions=case["actions"], fail=fail)
+        run_case(ctx, rig, case["keys"], actions=case["actions"], fail=fail, typed=bool(case.get("typed")))
     return list(ctx.failures.values())
